@@ -135,7 +135,8 @@ def run(tier, seed, replay=None):
             hist_ops[r["kind"]] = hist_ops.get(r["kind"], 0) + 1
             if r.get("extra", {}) and r["extra"].get("zip_problems"):
                 oracle_bad.append((hid, i, r["extra"]["zip_problems"]))
-    bad, errors = common.run_shards(HEADER, cases, "chk04t", "c04", shard=60)
+    fxh, fxv = pkglib.fx_header()
+    bad, errors = common.run_shards(HEADER + fxh, cases, "chk04t FX", "c04", shard=60)
     recmap = dict(done)
     violations, known_seen, seen_keys = [], [], set()
     known = {e["key"]: e for e in common.known_findings(PROP)}
@@ -184,6 +185,7 @@ def run(tier, seed, replay=None):
         samples=samples, op_histogram=hist_ops, histories=len(done), histories_timed_out=sum(1 for _, e in failed if e == "timeout"),
         harness_failures=len(harness_failures), corpus_cases=len(corpus),
         fidelity_divergences=sum(1 for c in bad.values() if c == 9), fidelity_by_op=fid, saved_zips_with_problems_by_direct_oracle=len(oracle_bad),
+        model_variant="FIXED" + ("" if fxv[0] else " without the repair of F35") + ("" if fxv[1] else " without the repair of F42"),
         exhaustive=False)
     pkglib.cleanup(work)
     return common.finish(PROP, tier, seed, proofs, coverage, violations, known_seen, t0,
